@@ -12,6 +12,7 @@ func init() {
 	replayers["pparse"] = func(f []string) string { return obsPParse(string(unhex(f[1]))) }
 	replayers["tokenize"] = func(f []string) string { return obsTokenize(string(unhex(f[1]))) }
 	replayers["rpn"] = func(f []string) string { return obsRPN(string(unhex(f[1]))) }
+	replayers["apath"] = func(f []string) string { return obsAPath(string(unhex(f[1]))) }
 }
 
 func hexList(xs []string) string {
@@ -127,6 +128,42 @@ func exhaustiveOver(alphabet []byte, n int, f func(string)) {
 	rec(0)
 }
 
+var apathDoc = []byte(`{"a":[1,2,{"b":"x"}],"0":3}`)
+
+func obsAPath(path string) string {
+	return guard(func() string {
+		root, err := ajson.Unmarshal(append([]byte(nil), apathDoc...))
+		if err != nil {
+			return "bad-doc"
+		}
+		live := map[*ajson.Node]bool{}
+		var walkN func(n *ajson.Node)
+		walkN = func(n *ajson.Node) {
+			live[n] = true
+			for _, c := range n.Inheritors() {
+				walkN(c)
+			}
+		}
+		walkN(root)
+		res, err := root.JSONPath(path)
+		if err != nil {
+			return errCode(err)
+		}
+		parts := make([]string, len(res))
+		for i, n := range res {
+			switch {
+			case n == nil:
+				parts[i] = "NIL"
+			case live[n]:
+				parts[i] = hexOrDash([]byte(n.Path()))
+			default:
+				parts[i] = "new"
+			}
+		}
+		return "ok " + strings.Join(parts, ",")
+	})
+}
+
 func streamScan(o *Out, r *Rng, tier string) {
 	exN, nRand := 3, 6000
 	if tier == "thorough" {
@@ -151,10 +188,28 @@ func streamScan(o *Out, r *Rng, tier string) {
 			o.Fail("C11", "no-panic(scanners)", "tokenize/rpn panicked", hexOrDash([]byte(s)), "", t+" / "+p)
 		}
 	}
+	emitApply := func(s string) {
+		obs := obsAPath(s)
+		o.Emit("apath\t"+hexOrDash([]byte(s)), obs, "a"+obs)
+		o.Check("C11", "no-panic(apply)")
+		if strings.HasPrefix(obs, "panic") {
+			o.Fail("C11", "no-panic(apply)", "JSONPath panicked on the document "+string(apathDoc), hexOrDash([]byte(s)), "", obs)
+		}
+		if strings.Contains(obs, "NIL") {
+			o.Fail("C11", "no-nil-entry", "a successful JSONPath result contains a nil entry", hexOrDash([]byte(s)), "", obs)
+		}
+	}
 	for _, s := range pathSamples {
 		emitPath(s)
 		emitExpr(s)
+		emitApply(s)
 	}
+	// every short path, applied: `$`+s, `$[`+s+`]`, `$.a`+s
+	exhaustiveOver(pathAlphabet, exN, func(s string) {
+		emitApply("$" + s)
+		emitApply("$[" + s + "]")
+		emitApply("$.a" + s)
+	})
 	for _, s := range exprSamples {
 		emitExpr(s)
 		emitPath("$[(" + s + ")]")
